@@ -1400,3 +1400,166 @@ Proof.
     + eapply BC_ext; [eapply BC_nocache; eauto | intros b; apply F1].
     + exact C.
 Qed.
+
+(* ---------- RemoveEntriesTo in the batched format ---------- *)
+
+Lemma RnG_ext_nb : forall g g' cn nd n, RnG g cn nd n ->
+  (forall k, k_tag k <> c09_tag_entry_batch -> g' k = g k) -> RnG g' cn nd n.
+Proof.
+  intros g g' cn nd n [G1 G2 G3 G4 G5 G6 G7 G8 G9 G10 G11] HF.
+  constructor; auto.
+  - intros e HI. rewrite HF by (cbn; ktags; discriminate). auto.
+  - rewrite !HF by (cbn; ktags; discriminate). auto.
+  - rewrite HF by (cbn; ktags; discriminate). auto.
+  - intros i Hi. rewrite HF by (cbn; ktags; discriminate). auto.
+  - destruct (n_ss nd).
+    + rewrite HF by (cbn; ktags; discriminate). auto.
+    + intros i. rewrite HF by (cbn; ktags; discriminate). auto.
+Qed.
+
+Lemma batch_range_spec : forall n hi k,
+  in_rangeb (KBatch n 0) (KBatch n hi) false k = true <-> exists b, k = KBatch n b /\ b < hi.
+Proof.
+  intros n hi k. unfold in_rangeb. rewrite andb_true_iff, key_leb_spec, key_ltb_spec. unfold KBatch. split.
+  - intros [H1 H2]. destruct (pre_between _ _ _ _ _ _ H1 H2) as (x & -> & Hx). exists x. split; auto. lia.
+  - intros (x & -> & Hx). split; [apply pre_kle; lia | apply pre_klt; lia].
+Qed.
+
+Lemma b_remove_get : forall d n idx k, sorted (p_kv d) ->
+  kv_get (p_kv (b_remove_entries_to d n idx)) k =
+  if (2 <=? batch_id idx) && in_rangeb (KBatch n 0) (KBatch n (batch_id idx - 1)) false k
+  then None else kv_get (p_kv d) k.
+Proof.
+  intros d n idx k HS. unfold b_remove_entries_to.
+  destruct ((batch_id idx =? 0) || (batch_id idx =? 1)) eqn:E.
+  - assert (2 <=? batch_id idx = false) as ->; [|reflexivity].
+    apply N.leb_gt. apply orb_true_iff in E. destruct E as [E|E]; apply N.eqb_eq in E; lia.
+  - apply orb_false_iff in E. destruct E as [E1 E2]. apply N.eqb_neq in E1, E2.
+    assert (2 <=? batch_id idx = true) as -> by (apply N.leb_le; lia).
+    cbn [p_kv andb]. now apply get_del_range.
+Qed.
+
+Lemma b_remove_sorted_wt : forall d n idx, sorted (p_kv d) -> WT (p_kv d) ->
+  sorted (p_kv (b_remove_entries_to d n idx)) /\ WT (p_kv (b_remove_entries_to d n idx)).
+Proof.
+  intros d n idx HS HW. unfold b_remove_entries_to.
+  destruct ((batch_id idx =? 0) || (batch_id idx =? 1)); [auto|]. cbn [p_kv].
+  split; [now apply sorted_del_range | now apply WT_del_range].
+Qed.
+
+Lemma good_above : forall l pi pt idx x, good_from pi pt l -> In x l -> e_index x = idx ->
+  good_from idx (e_term x) (above idx l).
+Proof.
+  induction l as [|e l IH]; intros pi pt idx x H HI Hx; [contradiction|].
+  destruct H as (A & B & C). unfold above in *. cbn [filter].
+  destruct HI as [<-|HI].
+  - assert (idx <? e_index e = false) as -> by (apply N.ltb_ge; lia).
+    rewrite filter_all; [rewrite <- Hx; exact C|].
+    intros y HY. apply N.ltb_lt. destruct (good_from_in _ _ _ _ C HY). lia.
+  - destruct (good_from_in _ _ _ _ C HI) as [Lx _].
+    assert (idx <? e_index e = false) as -> by (apply N.ltb_ge; lia).
+    eapply IH; eauto.
+Qed.
+
+Lemma last_term_above : forall l pi pt idx x d, good_from pi pt l -> In x l -> e_index x = idx ->
+  last_term (e_term x) (above idx l) = last_term d l.
+Proof.
+  induction l as [|e l IH]; intros pi pt idx x d H HI Hx; [contradiction|].
+  destruct H as (A & B & C). unfold above in *. cbn [filter last_term].
+  destruct HI as [<-|HI].
+  - assert (idx <? e_index e = false) as -> by (apply N.ltb_ge; lia).
+    rewrite filter_all; [reflexivity|].
+    intros y HY. apply N.ltb_lt. destruct (good_from_in _ _ _ _ C HY). lia.
+  - destruct (good_from_in _ _ _ _ C HI) as [Lx _].
+    assert (idx <? e_index e = false) as -> by (apply N.ltb_ge; lia).
+    eapply IH; eauto.
+Qed.
+
+Lemma remove_entries_to_RB : forall d s n idx, RB d s -> spec_wf_op s (ORemTo n idx) = true ->
+  RB (b_remove_entries_to d n idx) (spec_step s (ORemTo n idx)).
+Proof.
+  intros d s n idx (HS & HW & H) Hwf. cbn [spec_wf_op] in Hwf. apply andb_true_iff in Hwf.
+  destruct Hwf as [W1 W2]. apply N.leb_le in W1, W2.
+  destruct (b_remove_sorted_wt d n idx HS HW) as [HS' HW'].
+  split; [exact HS' | split; [exact HW'|]]. intros n'.
+  assert (Hcache : p_cache (b_remove_entries_to d n idx) = p_cache d).
+  { unfold b_remove_entries_to. now destruct ((batch_id idx =? 0) || (batch_id idx =? 1)). }
+  rewrite Hcache. cbn [spec_step].
+  assert (HO : forall k, (forall b, k <> KBatch n b) ->
+            kv_get (p_kv (b_remove_entries_to d n idx)) k = kv_get (p_kv d) k).
+  { intros k Hk. rewrite b_remove_get by auto. destruct (2 <=? batch_id idx); [|reflexivity]. cbn [andb].
+    destruct (in_rangeb _ _ false k) eqn:E; [|reflexivity].
+    apply batch_range_spec in E. destruct E as (b & -> & _). exfalso. eapply Hk; eauto. }
+  assert (HK : forall b, batch_id idx <= b + 1 ->
+            kv_get (p_kv (b_remove_entries_to d n idx)) (KBatch n b) = kv_get (p_kv d) (KBatch n b)).
+  { intros b Hb. rewrite b_remove_get by auto. destruct (2 <=? batch_id idx) eqn:E2; [|reflexivity]. cbn [andb].
+    destruct (in_rangeb _ _ false (KBatch n b)) eqn:E; [|reflexivity].
+    apply batch_range_spec in E. destruct E as (b' & X & L). apply KBatch_inj in X. subst b'.
+    apply N.leb_le in E2. lia. }
+  assert (HD : forall b v, kv_get (p_kv (b_remove_entries_to d n idx)) (KBatch n b) = Some v ->
+            kv_get (p_kv d) (KBatch n b) = Some v).
+  { intros b v X. rewrite b_remove_get in X by auto.
+    destruct ((2 <=? batch_id idx) && in_rangeb _ _ false (KBatch n b)); [discriminate | exact X]. }
+  destruct (nid_eqb n' n) eqn:EN.
+  - apply nid_eqb_eq in EN. subst n'. destruct (H n) as [A B C].
+    set (nd := s n) in *.
+    (* the node after the step *)
+    set (nd' := if n_marker nd <? idx then mkNode idx (term_at (n_ents nd) idx) (above idx (n_ents nd)) (n_st nd) (n_ss nd) else nd).
+    assert ((if n_marker nd <? idx then supd s n (mkNode idx (term_at (n_ents nd) idx) (above idx (n_ents nd)) (n_st nd) (n_ss nd)) else s) n = nd') as ->.
+    { unfold nd'. destruct (n_marker nd <? idx); [apply supd_same | reflexivity]. }
+    destruct (n_marker nd <? idx) eqn:EM.
+    + apply N.ltb_lt in EM. unfold nd'.
+      destruct (contig_above _ _ idx C ltac:(lia)) as [CA CL].
+      destruct (contig_nth _ _ idx C) as (x & X1 & X2); [unfold n_last in *; lia|].
+      assert (Tx : term_at (n_ents nd) idx = e_term x) by (rewrite <- X2; eapply term_at_in; eauto).
+      set (nd2 := mkNode idx (term_at (n_ents nd) idx) (above idx (n_ents nd)) (n_st nd) (n_ss nd)).
+      assert (HL2 : n_last nd2 = n_last nd).
+      { unfold n_last, nd2. cbn [n_marker n_ents]. rewrite CL. unfold n_last in W2. lia. }
+      pose proof (good_from_in_term _ _ _ x (bc_good _ _ _ _ B) X1) as Tx1.
+      assert (HT2 : n_last_term nd2 = n_last_term nd).
+      { unfold n_last_term, nd2. cbn [n_mterm n_ents]. rewrite Tx.
+        apply (last_term_above _ _ _ _ _ _ (bc_good _ _ _ _ B) X1 X2). }
+      constructor.
+      * eapply RnG_ext_nb; [eapply (strip_rn_entries _ _ nd); eauto|].
+        intros k Hk. apply HO. intros b X. subst k. apply Hk. reflexivity.
+      * destruct B as [B1 B2 B3 B4 B5]. constructor.
+        -- cbn [n_marker n_mterm n_ents nd2]. rewrite Tx.
+           assert (N.max 1 (e_term x) = e_term x) as -> by lia.
+           eapply good_above; eauto.
+        -- intros b v X. exact (B2 b v (HD b v X)).
+        -- intros b raw X. destruct (B3 b raw (HD _ _ X)) as (R1 & R2 & R3 & R4).
+           split; [exact R1|]. split; [exact R2|]. split.
+           ++ unfold hterm. rewrite HT2. exact R3.
+           ++ rewrite (filter_ext (in_log nd2) (fun y => (idx <? e_index y) && in_log nd y)).
+              ** rewrite filter_and, R4. unfold bfilter, above. cbn [n_ents nd2]. apply filter_comm.
+              ** intros y. unfold in_log. rewrite HL2. cbn [n_marker nd2].
+                 destruct (idx <? e_index y) eqn:Y; [|reflexivity]. apply N.ltb_lt in Y. cbn [andb].
+                 assert (n_marker nd <? e_index y = true) as -> by (apply N.ltb_lt; lia). reflexivity.
+        -- intros e HI. cbn [n_ents nd2] in HI. unfold above in HI. apply filter_In in HI.
+           destruct HI as [HI HX]. apply N.ltb_lt in HX. destruct (B4 e HI) as (raw & X).
+           exists raw. rewrite HK; auto. pose proof (batch_id_mono idx (e_index e) ltac:(lia)). lia.
+        -- intros lb Hlb. destruct (B5 lb Hlb) as (L1 & L2 & L3). split; [exact L1|]. split.
+           ++ intros e HI. cbn [n_ents nd2] in HI. unfold above in HI. apply filter_In in HI. apply L2. tauto.
+           ++ cbn [n_marker nd2]. intros X.
+              pose proof (batch_id_mono (n_marker nd + 1) (idx + 1) ltac:(lia)).
+              pose proof (batch_id_mono idx (idx + 1) ltac:(lia)).
+              destruct L3 as (raw & G & RR); [lia|]. exists raw. split; [|exact RR]. rewrite HK; auto. lia.
+      * exact CA.
+    + apply N.ltb_ge in EM. unfold nd'. constructor.
+      * eapply RnG_ext_nb; [exact A|]. intros k Hk. apply HO. intros b X. subst k. apply Hk. reflexivity.
+      * destruct B as [B1 B2 B3 B4 B5]. constructor.
+        -- exact B1.
+        -- intros b v X. exact (B2 b v (HD b v X)).
+        -- intros b raw X. exact (B3 b raw (HD _ _ X)).
+        -- intros e HI. destruct (B4 e HI) as (raw & X). exists raw. rewrite HK; auto.
+           pose proof (contig_bounds _ _ _ C HI). pose proof (batch_id_mono idx (e_index e) ltac:(lia)). lia.
+        -- intros lb Hlb. destruct (B5 lb Hlb) as (L1 & L2 & L3). split; [exact L1|]. split; [exact L2|].
+           intros X. destruct (L3 X) as (raw & G & RR). exists raw. split; [|exact RR]. rewrite HK; auto.
+           pose proof (batch_id_mono idx (n_marker nd + 1) ltac:(lia)). lia.
+      * exact C.
+  - assert (n' <> n) as HN by (intros ->; rewrite nid_eqb_refl in EN; discriminate).
+    assert (RB1 (kv_get (p_kv (b_remove_entries_to d n idx))) (p_cache d n') (s n') n') as HF.
+    { eapply RB1_ext; [apply H|]. intros k Hk. apply HO. intros b X. subst k. apply HN. rewrite <- Hk.
+      unfold key_node, KBatch. cbn. apply nid_eta. }
+    destruct (n_marker (s n) <? idx); [rewrite supd_other by auto|]; exact HF.
+Qed.
